@@ -2491,12 +2491,111 @@ pub fn verif_quote_server() -> Result<i32> {
             "d" => hex(&yaml_double_quote_escaped(&s)),
             "s" => hex(&yaml_single_quote_escaped(&s)),
             "c" => (can_single_quote(&s) as u8).to_string(),
+            // `e <forest>`: build (value, anchor table) from the text encoding
+            // `N<label>.<n|d<name>|a<name>>.<payload>[children]...`, run
+            // `enforce_anchor_soundness`, print what `emit_yaml_value` writes.
+            "e" => {
+                let (value, mut comments) = verif_forest_root(a.get(1).copied().unwrap_or(""));
+                enforce_anchor_soundness(&value, &mut comments, false);
+                let config = OutputConfig {
+                    output_format: OutputFormat::Yaml,
+                    compact: false,
+                    raw_output: false,
+                    join_output: false,
+                    nul_output: false,
+                    ascii_output: false,
+                    sort_keys: false,
+                    no_doc: false,
+                    indent_str: "  ".to_string(),
+                    use_color: false,
+                    json_sourced_floats: false,
+                };
+                hex(&emit_yaml_value(&value, &comments, &config, "", false))
+            }
             _ => "BAD-OP".to_string(),
         };
         writeln!(out, "{r}")?;
         out.flush()?;
     }
     Ok(0)
+}
+
+/// Verification hook helper: parse the forest encoding of `verif_quote_server`'s
+/// `e` op into a root object `(OwnedValue, CommentTree)`. Payload 9 = object
+/// (children keyed `k<label>`), 8 = array, anything else = that integer.
+#[cfg(feature = "verif-hooks")]
+fn verif_forest_root(enc: &str) -> (OwnedValue, CommentTree) {
+    fn num(b: &[u8], i: &mut usize) -> i64 {
+        let mut n = 0i64;
+        while *i < b.len() && b[*i].is_ascii_digit() {
+            n = n * 10 + i64::from(b[*i] - b'0');
+            *i += 1;
+        }
+        n
+    }
+    // one node list, up to `]` or end of input
+    fn nodes(b: &[u8], i: &mut usize) -> Vec<(i64, Option<AnchorMark>, i64, OwnedValue, CommentTree)> {
+        let mut out = Vec::new();
+        while *i < b.len() && b[*i] == b'N' {
+            *i += 1;
+            let label = num(b, i);
+            *i += 1; // '.'
+            let mark = match b.get(*i) {
+                Some(b'd') => {
+                    *i += 1;
+                    Some(AnchorMark::Declares(format!("n{}", num(b, i))))
+                }
+                Some(b'a') => {
+                    *i += 1;
+                    Some(AnchorMark::Aliases(format!("n{}", num(b, i))))
+                }
+                _ => {
+                    *i += 1;
+                    None
+                }
+            };
+            *i += 1; // '.'
+            let payload = num(b, i);
+            *i += 1; // '['
+            let children = nodes(b, i);
+            *i += 1; // ']'
+            let meta = NodeMeta {
+                comment: None,
+                style: "",
+                anchor: mark.clone(),
+            };
+            let (v, c) = match payload {
+                9 => {
+                    let mut vm = IndexMap::new();
+                    let mut cm = IndexMap::new();
+                    for (l, _, _, cv, cc) in children {
+                        vm.insert(format!("k{l}"), cv);
+                        cm.insert(format!("k{l}"), cc);
+                    }
+                    (OwnedValue::Object(vm), CommentTree::Object(meta, cm, IndexMap::new()))
+                }
+                8 => {
+                    let (vs, cs): (Vec<_>, Vec<_>) = children.into_iter().map(|(_, _, _, cv, cc)| (cv, cc)).unzip();
+                    (OwnedValue::Array(vs), CommentTree::Array(meta, cs))
+                }
+                n => (OwnedValue::Int(n), CommentTree::Leaf(meta)),
+            };
+            out.push((label, mark, payload, v, c));
+        }
+        out
+    }
+    let b = enc.as_bytes();
+    let mut i = 0;
+    let mut vm = IndexMap::new();
+    let mut cm = IndexMap::new();
+    for (l, _, _, cv, cc) in nodes(b, &mut i) {
+        vm.insert(format!("k{l}"), cv);
+        cm.insert(format!("k{l}"), cc);
+    }
+    (
+        OwnedValue::Object(vm),
+        CommentTree::Object(NodeMeta::empty(), cm, IndexMap::new()),
+    )
 }
 
 /// Whether a compact block-sequence item's remaining source (the text
